@@ -163,6 +163,8 @@ package workceptor
 //@   site call loadFromFile READFIRST: requires flag("locked") && !flag("applied") && !flag("truncated") && arg0 == sfd
 //@   site call statusFunc LATESTRECORD: requires flag("locked") && lastcall("lockStatusFile") != nil && (flag("loaded") || size <= 0) && !flag("truncated") && arg0 == sfd
 //@   site call Truncate AFTERCALLBACK: requires flag("locked") && flag("applied") && arg1 == 0
+//@   ghostflag durablecopy set call:Rename
+//@   site call Truncate CRASHPOINT: [C04] requires flag("durablecopy")
 //@   site call saveToFile WRITEBACK: requires flag("locked") && flag("applied") && flag("truncated") && !flag("saved") && arg0 == sfd
 //@   ensures RELEASED: flag("locked") ==> lastcall("lockStatusFile") == nil
 //@   ensures COMPLETE: result == nil ==> flag("applied") && flag("saved")
@@ -257,6 +259,9 @@ package workceptor
 //@   safety
 //@   requires w != nil && w.nc != nil
 //@   site mapupdate Workceptor.activeUnits RESCAN: [C13 C04] requires held(w.activeUnitsLock) == 2 && key == ident && value == worker && worker != nil
+//@   site call newWorkerFunc SAMETYPE: [C04] requires arg2 == ident && arg3 == sfd.WorkType && arg1 == w
+//@   site call newUnknownWorker SAMETYPE2: [C04] requires arg1 == ident && arg2 == sfd.WorkType && arg0 == w
+//@   site call Load@1 RECORD: [C04] requires arg1 == path.Join2(unitdir, "status") && arg0 == sfd
 
 // ---- C13: each writer of a unit's status only moves it forward (pending < running < finished).  What is proved
 // ---- is the order of the writer's own writes; that no other writer interleaves is the rely stated in DESIGN.md.
